@@ -8,8 +8,14 @@
    nested `def` per struct field, followed by `bind bt -> struct` -- is accepted by the code generator, the big-step
    semantics binds exactly that block, Bind stores it into a zero target as exactly v (C05_tree_roundtrip), and
    executing the generated code does the same (C05_code_roundtrip, via T1; up to the two VM limits).  The slice
-   forms bind `bt:all -> slice` and yield the values in order.  Text -> tokens -> tree (quoting, number printing) is
-   exercised by the harness only.  The statement over `fam`/`blocks_of` with an arbitrary nested type name is FALSE
+   forms bind `bt:all -> slice` and yield the values in order.  One level further down (Proofs/C05Tokens.v) the
+   writer is defined on TOKENS (`tokens_of_prog`: decimal integers without leading zero, strings quoted with backslash escapes for the quote, the backslash
+   and, as backslash-x-HH, every byte outside printable ASCII, negative numbers with unary minus) and the grammar reads its output back as exactly that
+   tree (C05_tokens_parse), the one-pass parser accepts it and emits the generator's code, and the round trip
+   holds from the token list (C05_token_roundtrip, C05_token_code_roundtrip); literal texts denote their values
+   (C05_int_text, C05_quote_text; the text of a float is a premise `parse_float (ftext b) = inr b` per float
+   written: float printing is not modelled).  Bytes -> tokens (the lexer on the written text) is exercised by the
+   harness only.  The statement over `fam`/`blocks_of` with an arbitrary nested type name is FALSE
    at tree level (C05_tree_roundtrip_counterexample: such blocks are not producible by any BCL text) and is kept
    only as a statement about Bind:
    C05_bind_roundtrip: for every struct type of the supported family (`fam d`: exported, non-embedded,
@@ -25,6 +31,7 @@ From Coq Require Import List Lia.
 From BCL Require Import Model.Reflect Proofs.ReflectProofs.
 Open Scope N_scope.
 From BCL Require Import Model.Api Model.Compile Spec.Syntax Spec.AstSem Proofs.T1Expr Proofs.T1Proofs Proofs.C05Tree.
+From BCL Require Import Proofs.LayoutTree Proofs.C05Tokens.
 
 Theorem C05_bind_roundtrip : forall d tn fs l bt,
   fam d (TStruct tn fs) -> (d <= 64)%nat -> inhabits (TStruct tn fs) (GStruct l) ->
@@ -123,6 +130,107 @@ Print Assumptions C05_literals.
 Theorem C05_run_tree : forall b, wf_block b -> run_program (prog_of_block b) = (ROk tt, env_bound b).
 Proof. first [exact C05Tree.run_prog_of_block | apply C05Tree.run_prog_of_block]. Qed.
 Print Assumptions C05_run_tree.
+
+Theorem C05_tokens_parse :
+  forall (ftext : N -> bytes) (t n : bytes) (fs : list (bytes * value)),
+       text_ok ftext (VBlock t n fs) ->
+       ast_program (tokens_of_prog ftext (VBlock t n fs)) = Some (prog_of_block (VBlock t n fs)).
+Proof. first [exact C05Tokens.tokens_parse | apply C05Tokens.tokens_parse]. Qed.
+Print Assumptions C05_tokens_parse.
+
+Theorem C05_tokens_parse_slice :
+  forall (ftext : N -> bytes) (bt : bytes) (l : list value),
+       Forall (fun x : value => exists (t n : bytes) (fs : list (bytes * value)), x = VBlock t n fs /\ text_ok ftext x)
+         l -> ast_program (tokens_of_progs ftext bt l) = Some (prog_of_blocks bt l).
+Proof. first [exact C05Tokens.tokens_parse_slice | apply C05Tokens.tokens_parse_slice]. Qed.
+Print Assumptions C05_tokens_parse_slice.
+
+Theorem C05_parser_accepts_written :
+  forall (ftext : N -> bytes) (t n : bytes) (fs : list (bytes * value)),
+       text_ok ftext (VBlock t n fs) ->
+       let b := VBlock t n fs in
+       let ps := parse_tokens (tokens_of_prog ftext b) in
+       hadError ps = false /\
+       oof ps = false /\
+       ppanic ps = false /\
+       code ps = code (compile_program (prog_of_block b)) /\
+       consts ps = consts (compile_program (prog_of_block b)) /\
+       (forall (name : bytes) (pos lfs : list N),
+        prog_of_pst ps name pos lfs = prog_of_tree (prog_of_block b) name pos lfs).
+Proof. first [exact C05Tokens.parser_accepts_written | apply C05Tokens.parser_accepts_written]. Qed.
+Print Assumptions C05_parser_accepts_written.
+
+Theorem C05_token_roundtrip :
+  forall (ftext : N -> bytes) (d : nat) (tn : bytes) (fs : list field) (l : list goval) (bt : bytes),
+       bfam d (TStruct tn fs) ->
+       (d <= 64)%nat ->
+       inhabits (TStruct tn fs) (GStruct l) ->
+       tn = [] \/ unsnake_eq tn bt = true ->
+       vals_ok (GStruct l) ->
+       gtext_ok ftext (GStruct l) ->
+       let b := tree_of (TStruct tn fs) (GStruct l) bt in
+       exists p : list stmt,
+         ast_program (tokens_of_prog ftext b) = Some p /\
+         p = prog_of_block b /\
+         (exists (en : env) (b' : value),
+            run_program p = (ROk tt, en) /\
+            binding_ en = Some (SStruct b') /\
+            veq b' b /\ bind (TgtPtr (TStruct tn fs) GZero) (BdStruct b') = BOk (GPtrTo (GStruct l))).
+Proof. first [exact C05Tokens.C05_token_roundtrip | apply C05Tokens.C05_token_roundtrip]. Qed.
+Print Assumptions C05_token_roundtrip.
+
+Theorem C05_token_code_roundtrip :
+  forall (ftext : N -> bytes) (d : nat) (tn : bytes) (fs : list field) (l : list goval) 
+         (bt name : bytes) (pos lfs : list N),
+       bfam d (TStruct tn fs) ->
+       (d <= 64)%nat ->
+       inhabits (TStruct tn fs) (GStruct l) ->
+       tn = [] \/ unsnake_eq tn bt = true ->
+       vals_ok (GStruct l) ->
+       gtext_ok ftext (GStruct l) ->
+       let b := tree_of (TStruct tn fs) (GStruct l) bt in
+       csize b + 1 < 2 ^ 64 ->
+       let ps := parse_tokens (tokens_of_prog ftext b) in
+       hadError ps = false /\
+       oof ps = false /\
+       ppanic ps = false /\
+       (let rr := execute (prog_of_pst ps name pos lfs) false false in
+        limit_res (rr_res rr) \/
+        (exists b' : value,
+           rr_res rr = VOk /\
+           rr_binding rr = BStruct b' /\
+           print_lines (rr_out rr) = [] /\
+           rr_warn rr = [] /\ bind (TgtPtr (TStruct tn fs) GZero) (BdStruct b') = BOk (GPtrTo (GStruct l)))).
+Proof. first [exact C05Tokens.C05_token_code_roundtrip | apply C05Tokens.C05_token_code_roundtrip]. Qed.
+Print Assumptions C05_token_code_roundtrip.
+
+Theorem C05_token_roundtrip_slice :
+  forall (ftext : N -> bytes) (d : nat) (tn : bytes) (fs : list field) (vals : list goval) 
+         (bt : bytes) (v0 : goval),
+       bfam d (TStruct tn fs) ->
+       (d <= 64)%nat ->
+       vals <> [] ->
+       Forall (fun v : goval => inhabits (TStruct tn fs) v /\ vals_ok v) vals ->
+       Forall (fun v : goval => inhabits (TStruct tn fs) v /\ gtext_ok ftext v) vals ->
+       tn = [] \/ unsnake_eq tn bt = true ->
+       let bl := map (fun v : goval => tree_of (TStruct tn fs) v bt) vals in
+       exists p : list stmt,
+         ast_program (tokens_of_progs ftext bt bl) = Some p /\
+         p = prog_of_blocks bt bl /\
+         (exists (en : env) (bl' : list value),
+            run_program p = (ROk tt, en) /\
+            binding_ en = Some (SSlice bl') /\
+            Forall2 veq bl' bl /\ bind (TgtPtr (TSlice (TStruct tn fs)) v0) (BdSlice bl') = BOk (GPtrTo (GSlice vals))).
+Proof. first [exact C05Tokens.C05_token_roundtrip_slice | apply C05Tokens.C05_token_roundtrip_slice]. Qed.
+Print Assumptions C05_token_roundtrip_slice.
+
+Theorem C05_int_text : forall n, n < 2^63 -> parse_int (int_text n) = inr (Z.of_N n).
+Proof. first [exact C05Tokens.parse_int_text | apply C05Tokens.parse_int_text]. Qed.
+Print Assumptions C05_int_text.
+
+Theorem C05_quote_text : forall s, Forall byte_ok s -> unquote (quote_text s) = Some s.
+Proof. first [exact C05Tokens.unquote_quote_text | apply C05Tokens.unquote_quote_text]. Qed.
+Print Assumptions C05_quote_text.
 
 (* non-vacuity: an ordinary member of the family and a value of it *)
 Example C05_example_holds : fam 2 c05_type /\ inhabits c05_type c05_val.
